@@ -777,12 +777,13 @@ theorem C20_sig_channel_within_capacity (dg : Bool) (ss : SS) (h : ReachableS dg
   obtain ⟨_, hi, hd⟩ := reachS_inv dg ls (initS dg) ss ⟨[], rfl⟩ (sinv_init dg) rfl h
   exact ⟨by have := hi.cap; rw [sigCap_eq] at this; exact this, hi.total, hi.hupCount, by rw [← hd]; exact hi.regd⟩
 
-/-- `signalsChannel` is registered exactly from the moment Running is first reached until Run returns; outside that window
-(before and during the initial set-up, after Run returned) a signal never reaches the collector: the only effect of `os sg`
-is the `ignored` counter -/
+/-- `signalsChannel` is registered exactly from Run's registration step (after the initial set-up, before the first select)
+until Run returns; outside that window (before and during the initial set-up, in the instants between
+`setCollectorState(StateRunning)` and `signal.Notify`, after Run returned) a signal never reaches the collector: the only effect
+of `os sg` is the `ignored` counter -/
 theorem C20_sig_registered_exactly_while_running (dg : Bool) (ss : SS) (h : ReachableS dg ss) :
-    (ss.notified = if (ss.core.everRunning = true ∧ ss.core.pc ≠ .done) then notifySet dg else []) ∧
-    ((ss.core.everRunning = false ∨ ss.core.pc = .done) → ∀ sg, fireS ss (.os sg) = some { ss with ignored := ss.ignored + 1 }) := by
+    (ss.notified = if (ss.regDone = true ∧ ss.core.pc ≠ .done) then notifySet dg else []) ∧
+    ((ss.regDone = false ∨ ss.core.pc = .done) → ∀ sg, fireS ss (.os sg) = some { ss with ignored := ss.ignored + 1 }) := by
   obtain ⟨ls, h⟩ := h
   obtain ⟨_, hi, hd⟩ := reachS_inv dg ls (initS dg) ss ⟨[], rfl⟩ (sinv_init dg) rfl h
   have hn := hi.notif
@@ -792,6 +793,21 @@ theorem C20_sig_registered_exactly_while_running (dg : Bool) (ss : SS) (h : Reac
   have : ss.notified = [] := by
     rw [hn]; rcases hw with hw | hw <;> simp [hw]
   simp [fireS, this]
+
+/-- **The registration window** (a quirk of the code, modelled as it is): when `setupConfigurationComponents` has stored
+StateRunning for the first time the Run goroutine has not yet called `signal.Notify`: in that state (`pc = select`, not
+`regDone`) the registration step is enabled and changes nothing but the registrations, no select receive is possible yet (Run
+is not in the select), and a signal delivered now does not reach the collector — `GetState() == Running` does not yet mean
+"SIGTERM will be handled". The state is reachable (example below). -/
+theorem C20_sig_registration_window (ss : SS) (hpc : ss.core.pc = .select) (hreg : ss.regDone = false) :
+    (∃ ss', fireS ss .register = some ss' ∧ ss'.core = ss.core ∧ ss'.q = ss.q ∧ ss'.notified = notifySet ss.dg ∧ ss'.regDone = true) ∧
+    (∀ e, fireS ss (.core (.pick e)) = none) := by
+  refine ⟨⟨{ ss with regDone := true, notified := notifySet ss.dg }, by simp [fireS, hpc, hreg], rfl, rfl, rfl, rfl⟩, ?_⟩
+  intro e
+  simp [fireS, sigGuard, hreg]
+
+example : (runS false ([.core .begin] ++ List.replicate 4 (.core (.step true)) ++ [.os .term])).map
+    (fun ss => (ss.core.pc, ss.core.st, ss.regDone, ss.q.length, ss.ignored)) = some (.select, .running, false, 0, 1) := by decide
 
 /-- **`DisableGracefulShutdown`.** With the setting on, no SIGINT/SIGTERM ever enters the channel and no run is ever stopped
 by a termination signal — whatever the OS delivers, whenever -/
@@ -813,61 +829,54 @@ theorem C20_sigterm_cannot_stop_when_graceful_shutdown_disabled (ss : SS) (h : R
 empty signal channel, a SIGINT or SIGTERM delivered by the OS enters the channel, the select can receive it, and receiving
 it leaves the loop with stop reason `term` — from there `C20_stop_returns` and `C20_ends_closed` (through
 `C20_sig_layer_refines_run_loop`): Run returns, Closed, service and providers shut down exactly once. -/
-theorem C20_termination_signal_stops (ss : SS) (h : ReachableS false ss) (hpc : ss.core.pc = .select) (hq : ss.q = [])
-    (sg : Sig) (hsg : sg = .int ∨ sg = .term) :
+theorem C20_termination_signal_stops (ss : SS) (h : ReachableS false ss) (hpc : ss.core.pc = .select) (hreg : ss.regDone = true)
+    (hq : ss.q = []) (sg : Sig) (hsg : sg = .int ∨ sg = .term) :
     ∃ ss1 ss2, fireS ss (.os sg) = some ss1 ∧ fireS ss1 (.core (.pick .term)) = some ss2 ∧
       ss2.core.stop = some .term ∧ ss2.core.pc = .shut1 ∧ ss2.q = [] := by
-  have hreach := C20_sig_layer_refines_run_loop false ss h
-  have hever : ss.core.everRunning = true := by
-    have := (inv_reachable hreach).ever; simp only [S.core] at this
-    exact this (by simp [hpc, Pc.initialPhase]) (by simp [hpc])
   have hn := (C20_sig_registered_exactly_while_running false ss h).1
-  simp only [hever, hpc, notifySet_false] at hn
+  simp only [hreg, hpc, notifySet_false] at hn
   have hmem : sg ∈ ss.notified := by rw [hn]; rcases hsg with rfl | rfl <;> simp
   have hev : sg.ev = .term := by rcases hsg with rfl | rfl <;> rfl
   have hne : sg ≠ .hup := by rcases hsg with rfl | rfl <;> simp
   have h1 : fireS ss (.os sg) = some { ss with core := { ss.core with nTerm := ss.core.nTerm + 1 }, q := [sg] } := by
     simp [fireS, hmem, hq, sigCap_eq, hev, fire, postEv]
   cases h2 : fireS { ss with core := { ss.core with nTerm := ss.core.nTerm + 1 }, q := [sg] } (.core (.pick .term)) with
-  | none => simp [fireS, sigGuard, hne, fire, hpc, pickEv] at h2
+  | none => simp [fireS, sigGuard, hne, fire, hpc, pickEv, hreg] at h2
   | some ss2 =>
     refine ⟨_, ss2, h1, h2, ?_⟩
-    simp [fireS, sigGuard, hne, fire, hpc, pickEv, SS.upd, leave, S.emit] at h2
+    simp [fireS, sigGuard, hne, fire, hpc, pickEv, SS.upd, leave, S.emit, hreg] at h2
     subst h2
     exact ⟨rfl, rfl, rfl⟩
 
 /-- **SIGHUP reloads**, whatever `DisableGracefulShutdown` says: in the select with an empty channel a SIGHUP enters the
 channel and its receive starts `reloadConfiguration` -/
-theorem C20_sighup_reloads (dg : Bool) (ss : SS) (h : ReachableS dg ss) (hpc : ss.core.pc = .select) (hq : ss.q = []) :
+theorem C20_sighup_reloads (dg : Bool) (ss : SS) (h : ReachableS dg ss) (hpc : ss.core.pc = .select) (hreg : ss.regDone = true)
+    (hq : ss.q = []) :
     ∃ ss1 ss2, fireS ss (.os .hup) = some ss1 ∧ fireS ss1 (.core (.pick .hup)) = some ss2 ∧
       ss2.core.pc = .reload1 ∧ ss2.core.stop = ss.core.stop ∧ ss2.q = [] := by
-  have hreach := C20_sig_layer_refines_run_loop dg ss h
-  have hever : ss.core.everRunning = true := by
-    have := (inv_reachable hreach).ever; simp only [S.core] at this
-    exact this (by simp [hpc, Pc.initialPhase]) (by simp [hpc])
   have hn := (C20_sig_registered_exactly_while_running dg ss h).1
-  simp only [hever, hpc] at hn
+  simp only [hreg, hpc] at hn
   have hmem : Sig.hup ∈ ss.notified := by rw [hn]; cases dg <;> simp [notifySet_true, notifySet_false]
   have h1 : fireS ss (.os .hup) = some { ss with core := { ss.core with nHup := ss.core.nHup + 1 }, q := [.hup] } := by
     simp [fireS, hmem, hq, sigCap_eq, Sig.ev, fire, postEv]
   cases h2 : fireS { ss with core := { ss.core with nHup := ss.core.nHup + 1 }, q := [.hup] } (.core (.pick .hup)) with
-  | none => simp [fireS, sigGuard, fire, hpc, pickEv] at h2
+  | none => simp [fireS, sigGuard, fire, hpc, pickEv, hreg] at h2
   | some ss2 =>
     refine ⟨_, ss2, h1, h2, ?_⟩
-    simp [fireS, sigGuard, fire, hpc, pickEv, SS.upd] at h2
+    simp [fireS, sigGuard, fire, hpc, pickEv, SS.upd, hreg] at h2
     subst h2
     exact ⟨rfl, rfl, rfl⟩
 
 /-- non-vacuity (= corpus cases of the harness `signals`): graceful shutdown disabled — SIGTERM while Running is ignored,
 SIGHUP reloads; four signals during the reload: three enter, the fourth is dropped -/
-example : (runS true ([.core .begin] ++ (List.replicate 4 (.core (.step true))) ++ [.os .term, .os .hup, .core (.pick .hup),
+example : (runS true ([.core .begin] ++ (List.replicate 4 (.core (.step true))) ++ [.register, .os .term, .os .hup, .core (.pick .hup),
     .core (.step true), .os .hup, .os .hup, .os .hup, .os .hup])).map
     (fun ss => (ss.core.pc, ss.core.st, ss.q, ss.dropped, ss.ignored, ss.core.nTerm)) =
     some (.reload2, .closing, [.hup, .hup, .hup], 1, 1, 0) := by decide
 
 /-- … enabled: a signal before Running is reached never arrives; SIGINT while Running stops the run; after Run returned
 nothing is registered any more -/
-example : (runS false ([.os .term, .core .begin] ++ (List.replicate 4 (.core (.step true))) ++ [.os .int, .core (.pick .term)] ++
+example : (runS false ([.os .term, .core .begin] ++ (List.replicate 4 (.core (.step true))) ++ [.register, .os .int, .core (.pick .term)] ++
     (List.replicate 4 (.core (.step true))) ++ [.os .hup])).map
     (fun ss => (ss.core.st, ss.core.stop == some .term, ss.notified.length, ss.q.length, ss.ignored)) =
     some (.closed, true, 0, 0, 2) := by decide
